@@ -206,6 +206,7 @@ class FakeKernel:
         self.stops_done = 0
         self.was_stopped = set()       # a process is stopped at most once (as in Executor.tla: running -> stopped -> resumed)
         self.reports = 0               # completions reported so far ("completed successfully" / "failed" lines)
+        self.reported_tasks = set()
         self.reaped_at = {}            # pid -> value of self.reports when it was reaped
         if self.sched.get("unrelated"):
             # a child of this process that Conductor did not start (exits some time during the run)
@@ -235,10 +236,12 @@ class FakeKernel:
         m = re.match(r"^✓ (\S+) completed successfully\.$", s)
         if m:
             self.reports += 1
+            self.reported_tasks.add(m.group(1))
             return self.ev(e="Line", kind="success", t=m.group(1))
         m = re.match(r"^✘ (\S+) failed\.$", s)
         if m:
             self.reports += 1
+            self.reported_tasks.add(m.group(1))
             return self.ev(e="Line", kind="failed", t=m.group(1))
         if s.startswith("✨ Done!"):
             self.banners.append("done")
@@ -396,7 +399,10 @@ class FakeKernel:
             # the one of a child Conductor did not start
             # ... but never at once: the id space has to wrap around first. A reaped id becomes available again only after two
             # further task completions have been REPORTED by Conductor since it was reaped (a stand-in for "much later")
-            free = sorted(p for p, s_ in self.proc.items() if s_ == "reaped" and self.reports - self.reaped_at.get(p, 0) >= 2)
+            # Assumption (the one every reaper of this kind rests on): the id of a TASK's process is not handed out again before
+            # Conductor has consumed that task's exit status (reported its completion).
+            free = sorted(p for p, s_ in self.proc.items() if s_ == "reaped" and self.reports - self.reaped_at.get(p, 0) >= 2
+                          and (self.task_of.get(p) == "//:__unrelated__" or self.task_of.get(p) in self.reported_tasks))
             pick = self.chooser.env_action(["none"] + [("reuse", p) for p in free], "pid_reuse") if free else 0
             if pick:
                 pid = free[pick - 1]
